@@ -2,8 +2,8 @@
 # usage: confirm_seed.sh <ID>  -- confirm a seeded regression in the scratch worktree /tmp/wt/base:
 #   (1) demo passes on the unchanged tree, (2) with the patch: compiles, demo fails, (3) the pinned suite still passes
 # writes /verif/seeded/<ID>/confirm.log and prints a one-line verdict
-id=$1
-S=/verif/seeded/$id
+dir=$1; id=$(echo $dir | cut -c1-3)
+S=/verif/seeded/$dir
 W=${SEED_WT:-/tmp/wt/verify}
 L=$S/confirm.log
 demo=$(ls $S/seed_*_demo.rs | head -1)
